@@ -30,9 +30,15 @@ SPEC_TY = {'T_STR': 'ty_Str', 'T_INT': 'ty_Int', 'T_FLOAT': 'ty_Float',
            'T_PYLIST': 'ty_PyList', 'T_PYDICT': 'ty_PyDict'}
 
 
+WRAPPERS = {}      # sort -> V class (plugins register theirs)
+
+
 def wrap(term):
     """z3 term -> V by sort"""
     s = term.sort()
+    for srt, cls in WRAPPERS.items():
+        if s == srt:
+            return cls(term)
     if s == so.I:
         return VInt(term)
     if s == so.B:
@@ -299,6 +305,9 @@ class Engine:
             return z3.BoolVal(a.name == b.name)
         if isinstance(a, VClass) and isinstance(b, VClass):
             return z3.BoolVal(a.cls is b.cls)
+        if type(a) is type(b) and hasattr(a, 't') and not isinstance(
+                a, (VSeq, VNodeRef)) and a.t.sort() == b.t.sort():
+            return a.t == b.t
         if type(a) is not type(b):
             simple = (VInt, VStr, VBool, VFloat, VNone, VSeq, VListC, VTuple,
                       VDictC)
@@ -454,7 +463,8 @@ class Engine:
             return VKind(getattr(so, 'K_' + name))
         if name in ('forall', 'exists', 'implies', 'old', 'N', 'P', 'iff',
                     'markstr', 'contains', 'startswith', 'endswith', 'ite',
-                    'GEN_MARK', 'empty_nodes', 'empty_pairs', 'seq_update',
+                    'GEN_MARK', 'empty_nodes', 'empty_pairs', 'empty_strs',
+                    'seq_update',
                     'is_node', 'TY', 'typeof', 'pv', 'int_dom', 'float_dom',
                     'int_of_str', 'float_of_str', 'str_of_int',
                     'str_of_float', 'lower', 'float_of_int', 'exc_msg',
@@ -467,6 +477,11 @@ class Engine:
             return VTy(getattr(so.Ty, SPEC_TY[name]))
         if name in sp.consts:
             return self.eval_const_expr(sp.consts[name])
+        for p in self.models.plugins:
+            if hasattr(p, 'spec_name'):
+                v = p.spec_name(self, name)
+                if v is not None:
+                    return v
         return None
 
     def eval_const_expr(self, e):
@@ -862,14 +877,14 @@ class Engine:
         if isinstance(v, VExt):
             return [(st, self.models.external(v.name + '.' + name))]
         if isinstance(v, VClass):
+            r = self.models.class_attr(self, v, name, st)
+            if r is not None:
+                return r
             m = self.find_method(v.cls, name)
             if m is not None:
                 return [(st, VFunc(m, None))]
             if name in v.cls.attrs:
                 return [(st, self.class_attr(v.cls, name))]
-            r = self.models.class_attr(self, v, name, st)
-            if r is not None:
-                return r
             raise Unsupported('class attribute %s.%s' % (v.cls.name, name),
                               node)
         if isinstance(v, VExc) and name == 'args':
